@@ -435,6 +435,15 @@ pub fn start_watchdog(pid: &'static str) {
             let _ = std::fs::write(&f, stuck.join("\n"));
             println!("VIOLATION property={pid} replay={}", f.display());
             eprintln!("  key: {pid}: loading does not terminate (30 s) :: {}", vmodel::report::truncate(&stuck[0], 600));
+            // partial evidence for the driver: the run was cut short by the hang
+            let edir = vmodel::report::verif_root().join("work").join("partial").join(pid);
+            let _ = std::fs::create_dir_all(&edir);
+            let ev = serde_json::json!({
+                "property_id": pid, "tier": std::env::var("VERIF_TIER").unwrap_or_else(|_| "quick".into()), "seed": 0, "level": "model_checking",
+                "coverage": {"rule": "run aborted: a load did not terminate within 30 s (reported as a violation)", "exhaustive": false, "evaluations": 1, "distinct_nontrivial": 1, "states": 1, "transitions": 1, "traces_validated_against_impl": 1, "samples": [{"project": vmodel::report::truncate(&stuck[0], 600)}]},
+                "assumptions": [], "wall_s": 30.0, "violations": 1,
+            });
+            let _ = std::fs::write(edir.join(format!("{}-hang.json", engine_name("L1"))), serde_json::to_string_pretty(&ev).unwrap());
             std::process::exit(1);
         }
     });
